@@ -355,8 +355,13 @@ PAT_TEXT = {
     "w": "_", "k": "KPAT", "q": "pats::QPAT", "b": 'b"ij"', "i": "7", "h": "'z'",
     # a non-literal hidden inside concat!(..): as an argument after a literal, and alone
     "m": 'concat!("e", KPAT)', "z": "concat!(KPAT)",
+    # deep nesting / long argument lists: the guard must hold at every depth and position
+    "n": 'concat!("a", concat!("b", concat!("c", concat!("d", concat!(KPAT)))))',
+    "g": 'concat!(%s, KPAT)' % ", ".join('"%c"' % (97 + i) for i in range(20)),
+    "d": 'concat!(concat!(concat!(concat!(concat!("e", "f")))))',
+    "l": 'concat!(%s)' % ", ".join('"%c"' % (97 + i) for i in range(21)),
 }
-LIT_OK = "srcy"
+LIT_OK = "srcydl"
 
 
 def pm_program(form, syntax, body):
@@ -394,7 +399,7 @@ def pm_cases(tier):
     E, B = "e", "b"
     dflt = (["w"], E, 1)
     dflt_nc = (["w"], E, 0)
-    nonlits = ["k", "b", "m", "z"] + (["q", "i", "h", "w"] if thorough else ["w"])
+    nonlits = ["k", "b", "m", "z", "n", "g"] + (["q", "i", "h", "w"] if thorough else ["w"])
     for form in MATCH_FORMS:
         first = form == MATCH_FORMS[0] or thorough
         # non-literal pattern, alone and inside an or-pattern
@@ -420,9 +425,11 @@ def pm_cases(tier):
             add("missing-comma", form, "b", [(["s"], E, 0), dflt], [(["s"], B, 0), dflt])
         # every literal form is accepted
         add("control", form, "b", [(["s", "r", "c", "y"], B, 1), (["s"], B, 0), (["y"], E, 1), (["w"], B, 0)])
+        add("control", form, "b", [(["d", "l"], B, 1), (["l"], E, 1), (["w"], B, 0)])
     for form in TRIM_FORMS:
         add("control", form, "p", ["s"])
         add("control", form, "p", ["s", "r", "c", "y"])
+        add("control", form, "p", ["d", "l"])
         for nl in nonlits:
             add("non-literal-pattern", form, "p", [nl], ["s"])
             if thorough or form == TRIM_FORMS[0]:
@@ -462,7 +469,7 @@ def pm_cases(tier):
 
 # ------------------------------------------------------------------ destructure! programs
 
-FIELD_NAMES = ["fa", "fb", "fc", "fd", "fe"]
+FIELD_NAMES = ["fa", "fb", "fc", "fd", "fe", "ff", "fg", "fh", "fi", "fj", "fk", "fl", "fm", "fn_", "fo", "fp"]
 
 
 def de_program(shape, pk, ann, elems, n, drop, isref):
@@ -578,6 +585,28 @@ def de_cases(tier):
                     add("too-many-fields", shape, pk, ann, [0, 1, "a", 2, 3], n, 0, 0)
                     add("reference", shape, pk, ann, [0, "a"], n, 0, 1)
                     add("two-rest-patterns", shape, pk, ann, ["r", 0, "a"], n, 0, 0)
+    # many fields (the macros walk a fixed list of 16 tuple-field names): the guards at the far end
+    for shape in ["braced", "tstruct", "tuple", "array"]:
+        pk = "path" if shape in ("braced", "tstruct") else "none"
+        for n in ([8, 15, 16] if thorough else [8, 16]):
+            full = list(range(n))
+            for ann in ((0, 1) if (thorough or n == 16) else (0,)):
+                add("control", shape, pk, ann, full, n, 0, 0)
+                add("too-few-fields", shape, pk, ann, full[:-1], n, 0, 0)
+                if shape != "braced":
+                    add("too-many-fields", shape, pk, ann, full + [n], n, 0, 0)
+                else:
+                    add("unknown-field", shape, pk, ann, full[:-1] + [99], n, 0, 0)
+                if shape != "array":
+                    add("rest-pattern", shape, pk, ann, full + ["r"], n, 0, 0)
+                    add("rest-pattern", shape, pk, ann, full[:-1] + ["r"], n, 0, 0)
+                    add("rest-pattern", shape, pk, ann, full[:n // 2] + ["r"] + full[n // 2 + 1:], n, 0, 0)
+                    add("reference", shape, pk, ann, full, n, 0, 1)
+                    if shape != "tuple":
+                        add("drop-type", shape, pk, ann, full, n, 1, 0)
+                else:
+                    add("control", shape, pk, ann, full[:-1] + ["a"], n, 0, 0)
+                    add("too-many-fields", shape, pk, ann, full + ["a", n], n, 0, 0)
     # degenerate empty patterns (no field is read): the guards are not expanded at all
     for shape in ["braced", "tstruct", "tuple", "array"]:
         pk = "path" if shape in ("braced", "tstruct") else "none"
